@@ -1,3 +1,3 @@
 From Coq Require Import Extraction ExtrOcamlBasic.
-From MW Require Import C16.Model.
-Extraction "../ocaml/c16/c16_model.ml" init step restart.
+From MW Require Import C16.Model C16.ModelWaitL.
+Extraction "../ocaml/c16/c16_model.ml" init step restart xinit xstep xrestart.
